@@ -297,9 +297,34 @@ func arrayLen(t types.Type) (int64, bool) {
 	return 0, false
 }
 
+// invariantLen: constant length of a load of a field / package variable with a length invariant.
+func (c *fnCtx) invariantLen(v ssa.Value) (int64, bool) {
+	if c.e == nil {
+		return 0, false
+	}
+	u, ok := v.(*ssa.UnOp)
+	if !ok || u.Op != token.MUL {
+		return 0, false
+	}
+	switch a := u.X.(type) {
+	case *ssa.FieldAddr:
+		if f := fieldOf(a); f != nil {
+			k, ok := c.e.fieldLen[f]
+			return k, ok
+		}
+	case *ssa.Global:
+		k, ok := c.e.globalLen[a]
+		return k, ok
+	}
+	return 0, false
+}
+
 func (c *fnCtx) seqLen0(v ssa.Value) Lin {
 	if n, ok := arrayLen(v.Type()); ok {
 		return Const(n)
+	}
+	if k, ok := c.invariantLen(v); ok {
+		return Const(k)
 	}
 	switch x := v.(type) {
 	case *ssa.Const:
@@ -341,6 +366,10 @@ func (c *fnCtx) seqLen0(v ssa.Value) Lin {
 func (c *fnCtx) seqCap(v ssa.Value) Lin {
 	if n, ok := arrayLen(v.Type()); ok {
 		return Const(n)
+	}
+	if k, ok := c.invariantLen(v); ok {
+		// capacity >= length is what the slice bounds need; the length is the safe bound
+		return Const(k)
 	}
 	switch x := v.(type) {
 	case *ssa.Slice:
@@ -477,12 +506,14 @@ func (c *fnCtx) lowerConst(v ssa.Value, depth int) (int64, bool) {
 				return 0, true
 			}
 		}
-		if c.callNonNeg(x, 0, depth) {
-			return 0, true
+		if l, ok := c.callLower(x, 0, depth); ok {
+			return l, true
 		}
 	case *ssa.Extract:
-		if call, ok := x.Tuple.(*ssa.Call); ok && c.callNonNeg(call, x.Index, depth) {
-			return 0, true
+		if call, ok := x.Tuple.(*ssa.Call); ok {
+			if l, ok := c.callLower(call, x.Index, depth); ok {
+				return l, true
+			}
 		}
 	case *ssa.Parameter:
 		if c.assumeParams && isInteger(x.Type()) {
@@ -503,27 +534,27 @@ func (c *fnCtx) lowerConst(v ssa.Value, depth int) (int64, bool) {
 	return 0, false
 }
 
-// callNonNeg: result idx of the call is non-negative by the callee's summary, given that the
-// integer arguments the summary depends on are non-negative.
-func (c *fnCtx) callNonNeg(call *ssa.Call, idx int, depth int) bool {
+// callLower: constant lower bound (0 or -1) of result idx of the call by the callee's summary,
+// given that the integer arguments the summary depends on are non-negative.
+func (c *fnCtx) callLower(call *ssa.Call, idx int, depth int) (int64, bool) {
 	f := call.Common().StaticCallee()
 	if f == nil || c.e == nil {
-		return false
+		return 0, false
 	}
 	needs, ok := c.e.sumNonNeg[f][idx]
 	if !ok {
-		return false
+		return 0, false
 	}
 	args := call.Common().Args
 	for _, pi := range needs {
 		if pi >= len(args) {
-			return false
+			return 0, false
 		}
 		if l, ok := c.lowerConst(args[pi], depth+1); !ok || l < 0 {
-			return false
+			return 0, false
 		}
 	}
-	return true
+	return c.e.sumLow[f][idx], true
 }
 
 // dependsOnPhiIncreasing: e == phi + k with k >= 0 (possibly through several additions).
@@ -590,6 +621,15 @@ func (c *fnCtx) defFacts(a Atom) []Ineq {
 	switch a.Kind {
 	case 'l':
 		ge(av, "len>=0")
+		if a.Path == "" {
+			if call, ok := a.Root.(*ssa.Call); ok {
+				if f := call.Common().StaticCallee(); f != nil && f.Pkg != nil && (f.Pkg.Pkg.Path() == "strings" || f.Pkg.Pkg.Path() == "bytes") && f.Name() == "Split" {
+					if c.seqLenConstPositive(call.Common().Args[1]) {
+						ge(av.Sub(Const(1)), "Split with a non-empty separator returns >=1 element")
+					}
+				}
+			}
+		}
 		return out
 	case 'c':
 		ge(av, "cap>=0")
@@ -726,6 +766,10 @@ func (c *fnCtx) callResultFacts(call *ssa.Call, idx int, res Lin) []Ineq {
 	}
 	full := f.Pkg.Pkg.Path() + "." + f.Name()
 	switch full {
+	case "strings.Split", "bytes.Split":
+		// with a non-empty separator the result has at least one element: expressed on len(result)
+		// by the caller through seqLenFacts (see lenFacts)
+
 	case "bytes.Index", "bytes.IndexByte", "strings.Index", "strings.IndexByte", "bytes.LastIndex", "strings.LastIndex", "bytes.LastIndexByte", "strings.LastIndexByte":
 		// -1 <= r <= len(s)-len(sep)  (sep length >= 0; IndexByte: r <= len(s)-1)
 		out = append(out, Ineq{res.Add(Const(1)), "index>=-1"})
@@ -792,4 +836,28 @@ func (c *fnCtx) guardIneqs(cond ssa.Value, pol bool) []Ineq {
 		return []Ineq{{d, why}, {d.Scale(-1), why}}
 	}
 	return nil
+}
+
+func (c *fnCtx) seqLenConstPositive(v ssa.Value) bool {
+	l := c.seqLen(v)
+	return l.IsConst() && l.K > 0
+}
+
+// guardDiseq returns d for a guard that establishes d != 0 (x != y holding, or x == y failing).
+func (c *fnCtx) guardDiseq(cond ssa.Value, pol bool) (Lin, bool) {
+	for {
+		u, ok := cond.(*ssa.UnOp)
+		if !ok || u.Op != token.NOT {
+			break
+		}
+		cond, pol = u.X, !pol
+	}
+	b, ok := cond.(*ssa.BinOp)
+	if !ok || !isInteger(b.X.Type()) || !isInteger(b.Y.Type()) {
+		return Lin{}, false
+	}
+	if (b.Op == token.NEQ && pol) || (b.Op == token.EQL && !pol) {
+		return c.lin(b.X).Sub(c.lin(b.Y)), true
+	}
+	return Lin{}, false
 }
